@@ -382,6 +382,7 @@ def install_probes():
             rec = CTX.rec
             if rec is not None:
                 rec.count('reduce.' + which)
+                rec.reduce_starts.append((which, rec.seq()))
                 rec.strategy_inputs = getattr(rec, 'strategy_inputs', [])
                 rec.strategy_inputs.append(
                     (which, rec.dig(reftok.tree_tokens(exprs)),
